@@ -483,7 +483,7 @@ def headerCheck (st : DecSt) (sb tmp : Bytes) : Except (ErrClass × DecSt) DecSt
 def decodeHeader (st : DecSt) (cont : DecSt → HP) : HP :=
   .readDirect 1
     (fun _ stop => match stop with
-      | .eof => fail { st with cleanEOF := true } .ioerr     -- errReadSize: no byte of a header
+      | .eof => { fail st .ioerr with cleanEOF := true }     -- errReadSize: no byte of a header
       | .fault => fail st .fault)
     (fun sb =>
       let size := (sb.headD 0).toNat
@@ -593,7 +593,7 @@ def decodeChained (P : Profile) (opts : Opts) : (fuel : Nat) → Nat → List Fi
     if o.panic then ⟨acc, none, true, o.st.glob, r'⟩
     else match o.err with
       | some c =>
-        if o.st.cleanEOF ∧ i ≠ 0 then ⟨acc, none, false, o.st.glob, r'⟩   -- clean end on a file boundary
+        if o.cleanEOF ∧ i ≠ 0 then ⟨acc, none, false, o.st.glob, r'⟩   -- clean end on a file boundary
         else
           let acc := match o.st.file with
             | some f => acc ++ [f]
@@ -603,5 +603,29 @@ def decodeChained (P : Profile) (opts : Opts) : (fuel : Nat) → Nat → List Fi
         match o.st.file with
         | some f => decodeChained P opts fuel (i + 1) (acc ++ [f]) o.st.glob r'
         | none => ⟨acc, none, true, o.st.glob, r'⟩
+
+structure ChainSpecRes where
+  files : List FileSt
+  err : Option ErrClass
+  panic : Bool
+  glob : Globals
+  rest : Bytes
+
+/-- `DecodeChained` under the specification interpreter: each decode starts where the previous
+    one stopped in the byte list -/
+def decodeChainedSpec (P : Profile) (opts : Opts) :
+    (fuel : Nat) → Nat → List FileSt → Globals → Bytes → Stop → ChainSpecRes
+  | 0, _, acc, g, d, _ => ⟨acc, none, false, g, d⟩
+  | fuel + 1, i, acc, g, d, stop =>
+    let res := decodeSpec P opts .full g d stop
+    if res.1.panic then ⟨acc, none, true, res.1.st.glob, res.2.rest⟩
+    else match res.1.err with
+      | some c =>
+        if res.1.cleanEOF ∧ i ≠ 0 then ⟨acc, none, false, res.1.st.glob, res.2.rest⟩
+        else ⟨(match res.1.st.file with | some f => acc ++ [f] | none => acc), some c, false, res.1.st.glob, res.2.rest⟩
+      | none =>
+        match res.1.st.file with
+        | some f => decodeChainedSpec P opts fuel (i + 1) (acc ++ [f]) res.1.st.glob res.2.rest stop
+        | none => ⟨acc, none, true, res.1.st.glob, res.2.rest⟩
 
 end Fit
